@@ -195,19 +195,23 @@ StepCall(s) ==
 Draws(k) == SubSeq(rnd.d, k + 1, Len(rnd.d))
 PCh == SubSeq(rnd.chP, nch.P + 1, 16)
 
-StepProve1 ==
-  LET r == ProveP1(env.P, Cap(sc.base), cs.P, rnd.d) IN
-  /\ ProveStart(Cap(sc.base), rnd.d, RefEm(r.mid))
+\* (the capacity is a parameter so that MC_Library can take it from a generator table)
+StepProve1C(cap) ==
+  LET r == ProveP1(env.P, cap, cs.P, rnd.d) IN
+  /\ ProveStart(cap, rnd.d, RefEm(r.mid))
   /\ UNCHANGED << rnd, consts, nch, altres >>
-StepProve2 ==
-  LET r == ProveP2(env.P, Cap(sc.base), cs.P, mid.P.ref, Draws(3 + 2 * mid.P.ref.n1), PCh) IN
-  /\ ProveFinish(Cap(sc.base), Draws(3 + 2 * mid.P.ref.n1), PCh, r.proof)
+StepProve2C(cap) ==
+  LET r == ProveP2(env.P, cap, cs.P, mid.P.ref, Draws(3 + 2 * mid.P.ref.n1), PCh) IN
+  /\ ProveFinish(cap, Draws(3 + 2 * mid.P.ref.n1), PCh, r.proof)
   /\ UNCHANGED << rnd, consts, nch, altres >>
-StepProve ==
-  LET r1 == ProveP1(env.P, Cap(sc.base), cs.P, rnd.d)
-      r2 == ProveP2(env.P, Cap(sc.base), r1.st, r1.mid, Draws(r1.used), PCh) IN
-  /\ Prove(Cap(sc.base), rnd.d, PCh, r2.proof)
+StepProveC(cap) ==
+  LET r1 == ProveP1(env.P, cap, cs.P, rnd.d)
+      r2 == IF r1.res = "" THEN ProveP2(env.P, cap, r1.st, r1.mid, Draws(r1.used), PCh) ELSE [proof |-> NoProof] IN
+  /\ Prove(cap, rnd.d, PCh, r2.proof)
   /\ UNCHANGED << rnd, consts, nch, altres >>
+StepProve1 == StepProve1C(Cap(sc.base))
+StepProve2 == StepProve2C(Cap(sc.base))
+StepProve == StepProveC(Cap(sc.base))
 
 Tampered(pf, f) ==
   CASE f = "tx" -> [pf EXCEPT !.tx = Fadd(@, 1)]
@@ -217,18 +221,20 @@ Tampered(pf, f) ==
 StepTamper(s) == wire # NoProof /\ Adversary(Tampered(wire, s.f)) /\ UNCHANGED << rnd, consts, nch, altres >>
 
 StepVerify1 == VerifyStart /\ UNCHANGED << rnd, consts, nch, altres >>
-StepVerify2 ==
-  LET ops == VerifyP2(env.V, Cap(sc.base), cs.V, mid.V.n1, wire, DummyCh).ops IN
-  /\ VerifyFinish(Cap(sc.base), VerifyChals(ops, nch.V))
-  /\ altres' = VerifyP2(env.V, Cap(sc.base), cs.V, mid.V.n1, wire, VerifyChalsWith(rnd.alt, ops, nch.V)).res
+StepVerify2C(cap) ==
+  LET ops == VerifyP2(env.V, cap, cs.V, mid.V.n1, wire, DummyCh).ops IN
+  /\ VerifyFinish(cap, VerifyChals(ops, nch.V))
+  /\ altres' = VerifyP2(env.V, cap, cs.V, mid.V.n1, wire, VerifyChalsWith(rnd.alt, ops, nch.V)).res
   /\ UNCHANGED << rnd, consts, nch >>
-StepVerify ==
+StepVerifyC(cap) ==
   LET r1 == VerifyP1(cs.V, wire)
-      ops == IF r1.res = "" THEN r1.ops \o VerifyP2(env.V, Cap(sc.base), r1.st, r1.n1, wire, DummyCh).ops ELSE r1.ops IN
-  /\ Verify(Cap(sc.base), VerifyChals(ops, nch.V))
+      ops == IF r1.res = "" THEN r1.ops \o VerifyP2(env.V, cap, r1.st, r1.n1, wire, DummyCh).ops ELSE r1.ops IN
+  /\ Verify(cap, VerifyChals(ops, nch.V))
   /\ altres' = IF r1.res # "" THEN r1.res
-               ELSE VerifyP2(env.V, Cap(sc.base), r1.st, r1.n1, wire, VerifyChalsWith(rnd.alt, ops, nch.V)).res
+               ELSE VerifyP2(env.V, cap, r1.st, r1.n1, wire, VerifyChalsWith(rnd.alt, ops, nch.V)).res
   /\ UNCHANGED << rnd, consts, nch >>
+StepVerify2 == StepVerify2C(Cap(sc.base))
+StepVerify == StepVerifyC(Cap(sc.base))
 
 PNextMC ==
   /\ ~Done
